@@ -141,8 +141,9 @@ def property_level(prop, level, why):
 class Harness:
     def __init__(self, fn, hid, prop, inputs, functions, body_of, uses, note, idealised, timeout, regions,
                  kind="proof", overrides=None, sampler=None, backend="z3", uf_axioms=False, config="py",
-                 native_optional=False):
+                 native_optional=False, bound=None):
         self.kind = kind
+        self.bound = bound
         self.native_optional = native_optional
         self.config = config
         self.uf_axioms = uf_axioms
@@ -166,8 +167,10 @@ class Harness:
 
 def harness(prop, inputs, functions=(), body_of=(), uses="default", note="", idealised=False, timeout=None,
             hid=None, regions=(), kind="proof", overrides=None, sampler=None, backend="z3", uf_axioms=False,
-            config="py", native_optional=False):
+            config="py", native_optional=False, bound=None):
     """register a proof harness.
+    bound     {tier: number of sampled inputs} for kind='bounded' harnesses whose single run is expensive
+              (default: the tier's stand-in budget)
     prop      property id(s) the obligation belongs to (str or tuple)
     inputs    {param: Domain}
     functions qualified names of the repository functions under contract in this harness
@@ -195,7 +198,7 @@ def harness(prop, inputs, functions=(), body_of=(), uses="default", note="", ide
     def deco(fn):
         h = Harness(fn, hid or (fn.__module__.split(".")[-1] + "." + fn.__name__), prop, inputs,
                     list(functions), list(body_of), uses, note, idealised, timeout, list(regions), kind,
-                    overrides, sampler, backend, uf_axioms, config, native_optional)
+                    overrides, sampler, backend, uf_axioms, config, native_optional, bound)
         HARNESSES[h.id] = h
         fn.harness = h
         return fn
